@@ -23,6 +23,14 @@ pub fn threads() -> usize {
         .unwrap_or_else(|| std::thread::available_parallelism().map(|n| n.get()).unwrap_or(8))
 }
 
+/// (production binary built without the cfg, scratch dir) for E-BIND
+pub fn bind_paths() -> (String, String) {
+    let v = std::env::var("VERIF_DIR").unwrap_or_else(|_| "/verif".into());
+    let dir = format!("{}/target/bindtmp", v);
+    let _ = std::fs::create_dir_all(&dir);
+    (format!("{}/target/bind/release/simple-irc-server", v), dir)
+}
+
 pub fn lim(depth: usize, max_states: u64, max_secs: f64) -> Limits {
     // VERIF_DEPTH_DELTA: experiment knob (not used by registered commands)
     let delta: i64 = std::env::var("VERIF_DEPTH_DELTA").ok().and_then(|s| s.parse().ok()).unwrap_or(0);
